@@ -323,23 +323,64 @@ def check(prop, tier):
     for k, f in known_hit:
         lines_out.append('KNOWN-FINDING: property=%s %s (obligation %s)' % (prop, k['what'], f['obligation']))
     replay_paths = []
+    bounded_runs = {}
+    use_cex = os.environ.get('VERIF_NO_CEX') != '1'
     if violations and not undecided:
         os.makedirs(REPLAYS, exist_ok=True)
+        if use_cex:
+            try:
+                import cexsearch
+                bounded_runs = cexsearch.run_units(sorted(set(f['unit'] for _r, f in violations)))
+            except Exception as e:  # best effort: a crash here must not mask the violation
+                bounded_runs = {'_error': {'status': 'error', 'detail': repr(e)}}
         seen = set()
         for r, f in violations:
             if f['obligation'] in seen:
                 continue
             seen.add(f['obligation'])
-            rp = write_replay(prop, r, f, tier)
+            rp = write_replay(prop, r, f, bounded_runs)
             replay_paths.append(rp)
-            cex = rp[1]
             lines_out.append('VIOLATION property=%s replay=%s obligation=%s%s' % (
-                prop, rp[0], f['obligation'], '' if cex else ' no-failing-input-found'))
+                prop, rp[0], f['obligation'], '' if rp[1] else ' no-failing-input-found'))
         exit_code = 1
     elif undecided:
         exit_code = 2
-        for r in undecided:
-            lines_out.append('UNDECIDED property=%s group=%s reason=%s' % (prop, r['group'], r['undecided']))
+        # Bounded stand-in: the proof could not be applied (restructured code: lost anchor, ghost code
+        # that no longer compiles, construct outside the subset). Run the small-scope harnesses of the
+        # property's units in the undecided groups against the real code. A concrete failing input
+        # is a violation (labelled bounded); no failing input leaves the property undecided (exit 2).
+        structural = [r for r in undecided if not (r['undecided'] or '').startswith('resource')
+                      and 'timed out' not in (r['undecided'] or '')]
+        base = load_json(os.path.join(VERIF, 'contracts', 'baseline.json')) if os.path.exists(os.path.join(VERIF, 'contracts', 'baseline.json')) else {}
+        cand = []
+        for r in structural:
+            for u in base.get(r['group'], {}).get('units', []):
+                if cfg['units'] == '*' or u in cfg['units']:
+                    cand.append(u)
+        if structural and cand and use_cex and not safety_only:
+            try:
+                import cexsearch
+                bounded_runs = cexsearch.run_units(sorted(set(cand)))
+            except Exception as e:
+                bounded_runs = {'_error': {'status': 'error', 'detail': repr(e)}}
+            hits = {u: b for u, b in bounded_runs.items() if b.get('status') == 'cex'}
+            if hits:
+                os.makedirs(REPLAYS, exist_ok=True)
+                for u, b in sorted(hits.items()):
+                    path = os.path.join(REPLAYS, '%s-%s.bounded.json' % (prop, re.sub(r'[^A-Za-z0-9_.-]', '_', u)))
+                    with open(path, 'w') as fh:
+                        json.dump({'property': prop, 'obligation': u + '.bounded',
+                                   'kind': 'bounded stand-in (the deductive proof is not applicable to the changed structure)',
+                                   'why_proof_not_applicable': [r['undecided'] for r in structural],
+                                   'failing_input': b['detail'], 'bound': b['harness'].get('bound'),
+                                   'oracle': b['harness'].get('oracle'), 'how_to_replay': b.get('cmd')}, fh, indent=1)
+                    replay_paths.append((path, b['detail']))
+                    lines_out.append('VIOLATION property=%s replay=%s obligation=%s.bounded (bounded stand-in; proof not applicable: %s)' % (
+                        prop, path, u, (structural[0]['undecided'] or '')[:120]))
+                exit_code = 1
+        if exit_code == 2:
+            for r in undecided:
+                lines_out.append('UNDECIDED property=%s group=%s reason=%s' % (prop, r['group'], r['undecided']))
 
     # evidence
     trusted = []
@@ -378,6 +419,7 @@ def check(prop, tier):
             'known_findings_hit': [k['id'] for k, _f in known_hit],
             'known_findings': [{'id': k['id'], 'obligation': k['obligation'], 'what': k['what'], 'carve_out': k.get('carve_out')} for k in known_obl.values()],
             'explanation': cfg.get('explanation', ''),
+            'bounded_stand_in_runs': [{'unit': u, 'status': b.get('status'), 'detail': b.get('detail')} for u, b in bounded_runs.items()],
         },
         'assumptions': trusted + ['rule ' + x for x in rules] + cfg.get('trusted_notes', []),
         'wall_s': round(time.time() - t0, 2),
@@ -399,16 +441,23 @@ def check(prop, tier):
     return exit_code
 
 
-def write_replay(prop, r, f, tier):
-    """Write the replay file for a failed obligation; try to find a concrete failing input."""
+def write_replay(prop, r, f, bounded_runs):
+    """Write the replay file for a failed obligation, with the concrete failing input found by the
+    bounded harness of the unit when there is one."""
     name = re.sub(r'[^A-Za-z0-9_.-]', '_', f['obligation'])
     path = os.path.join(REPLAYS, '%s-%s.json' % (prop, name))
     cex = None
     try:
         import cexsearch
-        cex = cexsearch.find(prop, f, r, tier)
-    except Exception as e:  # the search is best effort; a crash there must not mask the violation
-        cex = None
+        hu, _h = cexsearch.harness_for(f['unit'], cexsearch.load_map())
+        b = bounded_runs.get(hu) if hu else None
+        if b and b.get('status') == 'cex':
+            cex = {'bounded_harness_unit': hu, 'found': b['detail'], 'bound': b['harness'].get('bound'),
+                   'oracle': b['harness'].get('oracle'), 'how_to_replay': b.get('cmd'), 'ran_in': b.get('scratch')}
+        elif b:
+            f = dict(f)
+            f['bounded_search'] = {'status': b.get('status'), 'detail': b.get('detail')}
+    except Exception as e:
         f = dict(f)
         f['cex_search_error'] = repr(e)
     doc = {
@@ -428,6 +477,8 @@ def write_replay(prop, r, f, tier):
     }
     if 'cex_search_error' in f:
         doc['cex_search_error'] = f['cex_search_error']
+    if 'bounded_search' in f:
+        doc['bounded_search'] = f['bounded_search']
     with open(path, 'w') as fh:
         json.dump(doc, fh, indent=1)
     return path, cex
